@@ -401,7 +401,11 @@ class HMixBag(_Bag, HMix):
 
 class HMixProxy(HMix):
     """A record-like node that keeps all its attributes - the mixin's private ones included - in a backing
-    store of its own, through __setattr__/__getattr__ (as SymlinkNodeMixin itself does with its target)."""
+    store of its own, through __setattr__/__getattr__ (as SymlinkNodeMixin itself does with its target).
+
+    NOT part of any universe: a class that intercepts the mixin's name-mangled private attributes pins *how* the
+    mixin reaches its own state (instance attribute protocol only, no class-level defaults, no __dict__ access),
+    which no property states - a behaviour-preserving change (controls/C19-o4) tripped over it.  Kept for replays."""
 
     def __init__(self, name, parent=None, children=None, **kwargs):
         object.__setattr__(self, "_store", {})
